@@ -478,6 +478,28 @@ def _t(label, t0):
     return time.time()
 
 
+def model_check(module, cfg, expect_actions):
+    """common.model_check with a large thread stack for the TLC workers: the nested IF chains of Judge plus the big-number
+    conversions come close to the JVM's default 1 MB stack while the evaluator still runs interpreted (seen as a
+    sporadic StackOverflowError on a loaded machine)."""
+    t0 = time.time()
+    rc, out = common.run_tlc(module, cfg, extra=['-coverage', '1'], jvm=('-Xmx6g', '-Xss64m'))
+    st = common.tlc_stats(out)
+    if rc != 0 or 'Model checking completed. No error has been found.' not in out:
+        i = out.find('Error:')
+        raise common.MachineryError('model check %s/%s failed (rc=%s):\n%s' % (
+            module, cfg, rc, out[i:i + 3000] if i >= 0 else out[-4000:]))
+    cov = common.tlc_action_coverage(out)
+    for a in expect_actions:
+        if cov.get(a, (0, 0))[1] == 0:
+            raise common.MachineryError('vacuity: action %s of %s never taken (coverage %s)' % (a, module, cov))
+    st['coverage'] = {k: v[1] for k, v in cov.items()}
+    st['wall_s'] = round(time.time() - t0, 2)
+    st['module'] = module
+    st['cfg'] = cfg
+    return st
+
+
 def run(replay=None):
     ck = Check(PID)
     t0 = time.time()
@@ -501,8 +523,8 @@ def run(replay=None):
 
     # ---------------- (M)
     if not os.environ.get('C12_DEV_SKIP_MODEL'):      # development switch (mutation trials): the model does not depend on the code
-        ck.model(common.model_check('MC_KeyFormats', 'MC_KeyFormats_thorough.cfg' if thorough else 'MC_KeyFormats.cfg',
-                                    expect_actions=['DoOp', 'Choose', 'DoExport', 'DoImport']))
+        ck.model(model_check('MC_KeyFormats', 'MC_KeyFormats_thorough.cfg' if thorough else 'MC_KeyFormats.cfg',
+                             expect_actions=['DoOp', 'Choose', 'DoExport', 'DoImport']))
 
     t0 = _t('model', t0)
     common.fresh_bitcoinlib_env()
@@ -658,7 +680,8 @@ def run(replay=None):
                                  'import of %s %s via %s with hints {%s} of key [%s]: clause %s; implementation: %s'
                                  % (fmt, str(shown)[:120], c['ep'], name, kdesc(k), f['clause'], what), case)
     ck.traces = ncalls
-    for k, r in list(zip(owner, recs))[:200:29]:
+    withhist = [(k, r) for k, r in zip(owner, recs) if k.get('hist')]
+    for k, r in list(zip(owner, recs))[:200:40] + withhist[:60:20]:
         ck.sample({'key': kdesc(k), 'fmt': r['fmt'], 'representation': str(to_py(r['spec']) if r['spec']['t'] != 'none'
                                                                         else '')[:120],
                    'imports': sum(len(g['calls']) for g in r['groups'])}, limit=8)
